@@ -1,0 +1,85 @@
+//go:build verif
+
+// Contracts for the verification machinery in /verif (comment only).
+package service
+
+/*@ immutable types/service.serviceForFilter.target
+@*/
+/*@ frozen types/service.serviceForFilter.target
+@*/
+
+/*@ theory servicefilters
+;; theory filters k8s
+;; uses core/v1.ServiceSpec
+(declare-fun |F!core/v1.Service!Spec| (V) |S!core/v1.ServiceSpec|)
+(declare-fun |F!types/service.serviceForFilter!target| (V) V)
+(define-fun svc-sel ((s V)) V (|core/v1.ServiceSpec.Selector| (|F!core/v1.Service!Spec| s)))
+; C19: a service selects a pod iff it has a (non-empty) selector, lives in the pod's own
+; namespace and every selector pair is among the pod's labels
+(define-fun svcSelects ((s V) (p V)) Bool
+  (and (mapNonEmpty (svc-sel s)) (= (obj-ns s) (obj-ns p)) (submap (svc-sel s) (obj-labels p))))
+; SelectorMatchFilter(target): services whose non-empty selector is contained in the non-empty target
+(define-fun svcForAccept ((f V) (o V)) Bool
+  (and (isService o) (mapNonEmpty (svc-sel o)) (mapNonEmpty (|F!types/service.serviceForFilter!target| f))
+       (submap (svc-sel o) (|F!types/service.serviceForFilter!target| f))))
+(assert (forall ((f V) (o V)) (! (=> (= (dyntype f) |ty!*types/service.serviceForFilter|)
+    (= (accept f o) (svcForAccept f o))) :pattern ((accept f o)))))
+@*/
+
+/*@ func types/service.PodsFilter
+  props C19 C17
+  theory servicefilters
+  requires [services-valid] (forall ((j Int)) (=> (and (<= 0 j) (< j (slen {services})))
+        (and (not (= (select (sarr {services}) j) vnil)) (not (= (obj-ns (select (sarr {services}) j)) |str!|)))))
+  loop 1 inv [range] (and (<= 0 (+ {rangeindex} 1)) (<= (+ {rangeindex} 1) (slen {svcs})))
+  loop 1 inv [svcs-valid] (forall ((j Int)) (=> (and (<= 0 j) (< j (slen {svcs})))
+        (and (not (= (select (sarr {svcs}) j) vnil)) (not (= (obj-ns (select (sarr {svcs}) j)) |str!|)))))
+  at call(len)#3.after assert [opt:empty-selector-selects-nothing] (=> (= $result 0) (forall ((o V)) (not (svcSelects {svc} o))))
+  at call(And).after assert [opt:and-is-service-selection] (forall ((o V)) (= (accept $result o) (svcSelects {svc} o)))
+  ghost src : (Array Int Int) := ((as const (Array Int Int)) 0)
+  ghost fidx : (Array Int Int) := ((as const (Array Int Int)) 0)
+  at append(filters) set src := (store src (slen {filters}) {rangeindex})
+  at append(filters) set fidx := (store fidx {rangeindex} (slen {filters}))
+  loop 1 inv [filters-nonnil] (forall ((q Int)) (=> (and (<= 0 q) (< q (slen {filters}))) (not (= (select (sarr {filters}) q) vnil))))
+  loop 1 inv [every-filter-is-one-service] (forall ((q Int)) (=> (and (<= 0 q) (< q (slen {filters})))
+        (and (<= 0 (select src q)) (< (select src q) (+ {rangeindex} 1))
+             (forall ((o V)) (= (accept (select (sarr {filters}) q) o) (svcSelects (select (sarr {svcs}) (select src q)) o))))))
+  loop 1 inv [every-selecting-service-has-a-filter] (forall ((j Int)) (=> (and (<= 0 j) (< j (+ {rangeindex} 1)))
+        (ite (mapNonEmpty (svc-sel (select (sarr {svcs}) j)))
+             (and (<= 0 (select fidx j)) (< (select fidx j) (slen {filters})) (= (select src (select fidx j)) j))
+             (forall ((o V)) (not (svcSelects (select (sarr {svcs}) j) o))))))
+  ensures [is-or] (and (not (= result vnil)) (= (dyntype result) |ty!filter.orFilter|))
+  ensures [accept-iff-some-service-selects] (forall ((o V)) (= (accept result o)
+        (exists ((j Int)) (and (<= 0 j) (< j (slen {services})) (svcSelects (select (sarr {services}) j) o)))))
+@*/
+
+/*@ assumed func labels.Equals
+  theory servicefilters
+  note labels.Equals(a, b): both maps have the same key/value pairs
+  ensures (= result (forall ((k Str)) (and (= (select (|fdom!Str!Str| {labels1}) k) (select (|fdom!Str!Str| {labels2}) k))
+        (=> (select (|fdom!Str!Str| {labels1}) k) (= (select (|fval!Str!Str| {labels1}) k) (select (|fval!Str!Str| {labels2}) k))))))
+@*/
+
+/*@ func types/service.SelectorMatchFilter
+  props C19 C17
+  theory servicefilters
+  note the caller must not modify the target map afterwards (it is stored, not copied)
+  ensures [is-service-for-filter] (and (not (= result vnil)) (= (dyntype result) |ty!*types/service.serviceForFilter|))
+  ensures [services-whose-selector-is-in-target] (forall ((o V)) (= (accept result o)
+        (and (isService o) (mapNonEmpty (svc-sel o)) (mapNonEmpty {target}) (submap (svc-sel o) {target}))))
+@*/
+/*@ func (*types/service.serviceForFilter).Accept
+  props C19 C18
+  theory servicefilters
+  implements filter.Filter.Accept
+  requires [recv] (not (= {f} vnil))
+  loop 1 inv [visited-pairs-in-target] (forall ((k Str)) (=> (select $visited k)
+        (and (select {fdom(f.target)} k) (= (select {fval(f.target)} k) (select (|fval!Str!Str| (svc-sel {obj})) k)))))
+  ensures (= result (svcForAccept {f} {obj}))
+@*/
+/*@ func (*types/service.serviceForFilter).Equals
+  props C17
+  theory servicefilters
+  implements filter.ComparableFilter.Equals
+  requires [recv] (not (= {f} vnil))
+@*/
